@@ -113,6 +113,9 @@ class FJSPSpec(SSpec):
                 out.append((f"jssp2x2-{ci}", fjsp_inst([2, 2], table, 4, 2)))
             # same machine twice for a job, and a 3x2 instance
             out.append(("jssp2x2-same", fjsp_inst([2, 2], [{0: 2}, {0: 1}, {0: 1}, {1: 3}], 4, 2)))
+            # long horizons: the clock passes the library's "not yet scheduled" sentinel (INIT_FINISH = 9999) while a job is idle
+            out.append(("jssp2x2-long", fjsp_inst([2, 2], [{0: 6000}, {1: 5000}, {0: 6000}, {1: 1}], 4, 2)))
+            out.append(("jssp3x1-long", fjsp_inst([1, 1, 1], [{0: 6000}, {0: 5000}, {0: 1}], 3, 1)))
             if tier != "quick":
                 out.append(("jssp3x2-a", fjsp_inst([2, 2, 2], [{0: 2}, {1: 1}, {1: 2}, {0: 2}, {0: 1}, {1: 3}], 6, 2)))
                 out.append(("jssp2x3-a", fjsp_inst([3, 3], [{0: 2}, {1: 1}, {2: 2}, {2: 1}, {0: 2}, {1: 3}], 6, 3)))
@@ -138,6 +141,8 @@ class FJSPSpec(SSpec):
                         table.append(row)
                     out.append((f"fjsp-{''.join(map(str, job_ops))}-{idx}", fjsp_inst(job_ops, table, 4, 2)))
                     idx += 1
+        out.append(("fjsp-long", fjsp_inst([2, 1], [{0: 6000, 1: 7000}, {1: 5000}, {0: 4000}], 4, 2)))
+        out.append(("fjsp3x1-long", fjsp_inst([1, 1, 1], [{0: 6000}, {0: 5000}, {0: 1}], 3, 1)))
         if tier != "quick":
             out.append(("fjsp3x2", fjsp_inst([2, 2, 2], [{0: 2, 1: 3}, {1: 1}, {0: 1, 1: 1}, {0: 2}, {1: 2, 0: 3}, {0: 1}], 6, 2)))
         return out
